@@ -447,8 +447,8 @@ pub fn model(cell: &Cell) -> Model {
                                 m.populate_old = Some(None);
                                 match pop {
                                     Pop::NotFound | Pop::PartialNotFound(_) => {
-                                        // comparison skipped, hit returned as is (and not promoted)
-                                        promote = false;
+                                        // "return NotFound to skip the comparison without failing the whole call":
+                                        // only the comparison is skipped; the judge's verdict (Promote) still applies
                                     }
                                     Pop::OtherErr | Pop::PartialErr(_) => {
                                         m.result = Expect::AnyErr;
